@@ -30,6 +30,7 @@ import (
 	"github.com/yandex/pandora/lib/monitoring"
 	"google.golang.org/grpc"
 	"google.golang.org/grpc/metadata"
+	"google.golang.org/grpc/peer"
 	"google.golang.org/grpc/reflection"
 	"google.golang.org/protobuf/proto"
 	"google.golang.org/protobuf/reflect/protoreflect"
@@ -86,6 +87,7 @@ type Call struct {
 	Msg    string // canonical: field:value,... in field-number order, default values omitted
 	MD     string // canonical: key:value,... sorted, transport keys removed
 	DLms   int64  // time left until the deadline when the call arrived, ms; -1 = no deadline
+	Peer   string // remote address of the connection the call arrived on
 }
 
 func (c Call) String() string {
@@ -182,6 +184,9 @@ func (s *Server) intercept(ctx context.Context, req any, info *grpc.UnaryServerI
 	}
 	if dl, ok := ctx.Deadline(); ok {
 		c.DLms = time.Until(dl).Milliseconds()
+	}
+	if pr, ok := peer.FromContext(ctx); ok && pr.Addr != nil {
+		c.Peer = pr.Addr.String()
 	}
 	s.mu.Lock()
 	s.calls = append(s.calls, c)
